@@ -53,6 +53,13 @@ def run(ctx):
         raise Infra("VerifWash (the hook's copy of one housekeeping tick) and the real loop disagree although the real loop "
                     "satisfies the oracles: the hook drifted: %s" % ctx.cov["hook_drift"][:2])
 
+    # 6. growth: the node's tx stash next to the pool (TxStash.tla, Trace_TxStash.tla; hook verif_hooks_txstash.go)
+    sc = pc.stash_check(ctx, 6 if q else 120) or {}
+    need = ["evictions", "fill_new", "fill_dup", "txevent_f", "txevent_t", "txevent_n", "restarts_direct", "restarts_process", "saves"]
+    miss = [k for k in need if sc.get(k, 0) == 0]
+    if miss and not q and not ctx.violations:
+        raise Infra("tx stash: branches never taken in a thorough run: %s" % miss)
+
     if ctx.cov.get("flow_mismatches") and not ctx.violations:
         raise Infra("replayed wash took another path than the model although no observable differs (spec drift): %s"
                     % ctx.cov["flow_mismatches"][:2])
